@@ -253,6 +253,20 @@ func enumerate() []history {
 	} else {
 		blocks = append(blocks, block{1, 2, 1, alias("L")}, block{1, 3, 1, alias("L")}, block{3, 2, 1, alias("L", "F")})
 	}
+	// (D) pins of one CID that differ only in what api.Pin.Equals does not
+	// look at (pin-update source, the metadata entry under the empty key):
+	// the later one still replaces the entry
+	lax := func(role string) []op {
+		var out []op
+		for v, pv := range variants {
+			switch pv.Name {
+			case "plain", "update-v1", "update-v0", "meta-emptykey":
+				out = append(out, op{"pin", v, 0, role})
+			}
+		}
+		return out
+	}
+	blocks = append(blocks, block{1, 2, 1, lax("L")}, block{3, 2, 0, lax("L")})
 	seen := map[string]bool{}
 	add := func(h history) {
 		k := h.String()
